@@ -83,7 +83,8 @@ def default_defs(extra=()):
 
 def _limits(mem_gb):
     def f():
-        resource.setrlimit(resource.RLIMIT_AS, (mem_gb << 30, mem_gb << 30))
+        if mem_gb:
+            resource.setrlimit(resource.RLIMIT_AS, (mem_gb << 30, mem_gb << 30))
         os.setsid()
     return f
 
@@ -189,7 +190,7 @@ LOOPISH = ("loop_invariant_base", "loop_invariant_step", "loop_decreases", "loop
 
 def classify(props, ob):
     """-> (status, reason, failed)"""
-    failed, probes_failed, probes_ok, unwind = [], 0, 0, []
+    failed, probes_failed, probes_ok, unwind, other = [], 0, 0, [], []
     for name, st, desc in props:
         if "vacuity-probe" in desc:
             if not name.startswith(ob["entry"] + "."):
@@ -207,9 +208,11 @@ def classify(props, ob):
             else:
                 failed.append((name, desc))
         else:
-            return "undecided", "property %s has status %s" % (name, st), []
+            other.append((name, st))
     if failed:
         return "fail", "", failed
+    if other:
+        return "undecided", "property %s has status %s" % other[0], []
     if unwind:
         return "unwind", "unwinding assertion failed: " + unwind[0][0], unwind
     if probes_ok:
@@ -234,6 +237,11 @@ def gen_loop_json(ob, gb, wd):
     for fn, loops in ob["dfcc"]["loopspec"].items():
         entries = []
         for lp in loops:
+            lp = dict(lp)
+            for k in ("assigns", "inv", "dec"):
+                if k in lp:
+                    for cn, cv in ob["dfcc"].get("consts", {}).items():
+                        lp[k] = re.sub(r"\b%s\b" % cn, str(cv), lp[k])
             text = " ".join(str(lp.get(k, "")) for k in ("assigns", "inv", "dec"))
             bound = set(re.findall(r"__CPROVER_(?:forall|exists)\s*\{\s*[A-Za-z_ ]*?([A-Za-z_][A-Za-z_0-9]*)\s*;", text))
             idents = set(re.findall(r"(?<![\.>A-Za-z_0-9])([A-Za-z_][A-Za-z_0-9]*)", text))
@@ -381,7 +389,7 @@ def native_build_run(ob, vin_init, cfg, wd, timeout=20):
         f.write("#define VIN_INIT %s\n" % vin_init)
     defs = verif_defs(keep=ob.get("keep", ()), extra=ob.get("defs", ()), drop=ob.get("drop", ())) if cfg == "verif" else default_defs(ob.get("defs", ()))
     exe = os.path.join(wd, "replay_%s.bin" % cfg)
-    cmd = ["gcc", "-O1", "-w", "-fno-strict-aliasing", "-fno-strict-overflow"] + INCLUDES + defs + \
+    cmd = ["gcc", "-O1", "-g", "-w", "-fno-strict-aliasing", "-fno-strict-overflow", "-fsanitize=address,undefined", "-fno-sanitize-recover=all", "-U_FORTIFY_SOURCE"] + INCLUDES + defs + \
           ["-DVNATIVE=1", "-DVENTRY=" + ob["entry"], "-include", hdr]
     if cfg == "default":
         cmd += ["-mavx2", "-maes", "-mpclmul", "-mrdrnd"]
@@ -389,13 +397,14 @@ def native_build_run(ob, vin_init, cfg, wd, timeout=20):
         cmd += ["-include", os.path.join(VERIF, h)]
     cmd += [os.path.join(VERIF, ob["src"])] + [os.path.join(VERIF, x) for x in ob.get("extra_src", [])]
     cmd += [os.path.join(VERIF, x) for x in ob.get("native_src", [])]
-    cmd += ["-o", exe, "-lpthread", "-no-pie", "-static", "-Wl,--unresolved-symbols=ignore-all"]
+    cmd += ["-o", exe, "-lpthread", "-no-pie", "-Wl,--unresolved-symbols=ignore-all"]
     rc, out, err, s = run(cmd, 300, 16)
     if rc != 0:
         return {"config": cfg, "built": False, "output": (out + err)[-1500:]}
-    rc, out, err, s = run([exe], timeout, 8)
-    return {"config": cfg, "built": True, "rc": rc, "output": (out + err)[-3000:],
-            "reproduced": (rc == 1 and "REPLAY RESULT: violated" in out) or rc == "timeout" or (isinstance(rc, int) and rc < 0)}
+    rc, out, err, s = run([exe], timeout, None, env={"ASAN_OPTIONS": "detect_leaks=0"})
+    return {"config": cfg, "built": True, "rc": rc, "output": ((out + err)[:1800] + ("\n...\n" + (out + err)[-600:] if len(out + err) > 2400 else "")),
+            "reproduced": (rc == 1 and "REPLAY RESULT: violated" in out) or rc == "timeout" or (isinstance(rc, int) and rc < 0)
+                          or "ERROR: AddressSanitizer:" in err or "runtime error:" in err}
 
 
 def do_replay(ob, vin, wd):
